@@ -43,7 +43,17 @@ def unit(pid):
         nat = NATIVE % dict(a=a_, b=b_, fac=f_)
         for n, v in vals.items():
             o = core.prove_zero('%s/mader/path%d/%s' % (pid, i, n), v.subs(sub, simultaneous=True) - fac[n] * v, h, goal_text='%s: %s' % (n, what))
-            if o['status'] == 'refuted': o['replay'] = nat
+            if o['status'] == 'refuted':
+                o['replay'] = nat
+                if o.get('cex_raw'):
+                    try:
+                        P_ = {s_: float(sp.sympify(o['cex_raw'].get(s_.name, W[s_]))) for s_ in W}
+                        if pid == 'C10':
+                            kk = float(sp.sympify(o['cex_raw'].get('k_sim', 1.7)))
+                            o['replay'] = NATIVE % dict(a=[P_[s_] for s_ in (t, x, dx, p, d, gam, up)], b=[P_[t] * kk, P_[x] * kk, P_[dx] * kk, P_[p], P_[d], P_[gam], P_[up]], fac=[1, 1, 1, 1])
+                        else:
+                            a2, b2, f2 = num(P_); o['replay'] = NATIVE % dict(a=a2, b=b2, fac=f2)
+                    except Exception: pass
             o.pop('cex_raw', None); O.append(o)
         # the branch taken is the same for the transformed request
         rels = []
